@@ -91,6 +91,11 @@ def _role_of_line(fn: Fn, node, depth=0) -> List[tuple]:
             return [("POSITION", f)]
         if f in ("str", "repr"):
             return _role_of_line(fn, p, depth + 1)
+        if isinstance(p.func, ast.Attribute) and p.func.attr in ("add", "append", "discard", "remove", "count", "index", "setdefault",
+                                                                 "get", "__contains__") and _local_container(fn, p.func.value):
+            # remembered in / looked up in a container that lives for this run() only: equality between line numbers of the
+            # same statement (report once per line), invariant when every line moves by the same amount
+            return [("SAME_LINE", f"{p.func.attr} on the local container {text(p.func.value)}")]
         return [("?", f"argument of {text(p.func)}")]
     if isinstance(p, ast.Starred):
         return _role_of_line(fn, p, depth + 1)
@@ -105,7 +110,7 @@ def _role_of_line(fn: Fn, node, depth=0) -> List[tuple]:
         other = p.comparators[0] if p.left is node else p.left
         op = p.ops[0]
         const = fold_in_fn(other, fn, default=None)
-        if isinstance(const, (dict, list, set)) and isinstance(other, ast.Name):
+        if (isinstance(const, (dict, list, set, frozenset, tuple)) and isinstance(other, ast.Name)) or _local_container(fn, other):
             const = None            # a local container (filled with line numbers at run time), not a constant
         if isinstance(op, (ast.In, ast.NotIn, ast.Eq, ast.NotEq)) and const is None:
             return [("SAME_LINE", text(other))]
@@ -140,6 +145,30 @@ def _role_of_line(fn: Fn, node, depth=0) -> List[tuple]:
     if isinstance(p, (ast.If, ast.While, ast.BoolOp, ast.UnaryOp)):
         return [("ABSOLUTE", "truthiness of a line number")]
     return [("?", type(p).__name__)]
+
+
+def _local_container(fn: Fn, e) -> bool:
+    """*e* is a local of *fn* whose every binding creates a fresh empty container ({} / [] / set() / dict() / list() / a
+    collections.* constructor without arguments): it holds nothing but what this activation puts into it."""
+    if not isinstance(e, ast.Name) or e.id in fn.params:
+        return False
+    defs = []
+    for n in walk_fn(fn.node):
+        if isinstance(n, ast.Assign) and any(isinstance(x, ast.Name) and x.id == e.id for t in n.targets for x in ast.walk(t)):
+            defs.append(n.value if len(n.targets) == 1 and isinstance(n.targets[0], ast.Name) else None)
+        elif isinstance(n, (ast.AugAssign, ast.AnnAssign)) and isinstance(n.target, ast.Name) and n.target.id == e.id:
+            defs.append(n.value if isinstance(n, ast.AnnAssign) else None)
+        elif isinstance(n, (ast.For, ast.comprehension)) and any(isinstance(x, ast.Name) and x.id == e.id for x in ast.walk(n.target)):
+            defs.append(None)
+
+    def fresh(v) -> bool:
+        if isinstance(v, (ast.List, ast.Set, ast.Tuple)):
+            return not v.elts
+        if isinstance(v, ast.Dict):
+            return not v.keys
+        return isinstance(v, ast.Call) and not v.args and not v.keywords and text(v.func).split(".")[-1] in (
+            "set", "dict", "list", "OrderedDict", "defaultdict", "deque", "Counter")
+    return bool(defs) and all(v is not None and fresh(v) for v in defs)
 
 
 def _line_valued(e) -> str:
